@@ -162,7 +162,7 @@ ParseRequestLine(line) ==
        ELSE IF ~IsToken(method) THEN bad("MethodNotToken")          \* method = token, RFC 9110 9.1
        ELSE IF ~(Len(ver) = 8 /\ SubSeq(ver, 1, 5) = L_http_slash /\ IsDigit(ver[6]) /\ ver[7] = 46 /\ IsDigit(ver[8]))
             THEN bad("Version")                                      \* HTTP-version, RFC 9112 2.3
-       ELSE IF Len(target) = 0 THEN bad("TargetEmpty")
+       ELSE IF Len(target) = 0 /\ um # M_CONNECT THEN bad("TargetEmpty")
        ELSE
         LET vmaj == DigitVal(ver[6])
             vmin == DigitVal(ver[8])
@@ -173,7 +173,8 @@ ParseRequestLine(line) ==
             sObs == IF AnyB(target, IsObsText) THEN <<Alt("TargetObsText")>> ELSE <<>>
             \* request-target bytes: VCHAR only (RFC 9112 3.2 / RFC 3986); CTL, DEL (SP cannot occur)
             sCtl == IF AnyB(target, LAMBDA b : IsCtl(b)) THEN <<Dev("TargetCTLAccepted")>> ELSE <<>>
-            form == CASE sCtl # <<>> /\ target[1] # 47 /\ um # M_CONNECT -> <<>>    \* strict verdict is reject anyway; form left open
+            form == CASE Len(target) = 0 -> <<Alt("ConnectTargetUnchecked")>>
+                      [] sCtl # <<>> /\ target[1] # 47 /\ um # M_CONNECT -> <<>>    \* strict verdict is reject anyway; form left open
                       [] um = M_CONNECT ->
                             IF AuthorityFormOK(target) THEN <<>> ELSE <<Alt("ConnectTargetUnchecked")>>
                       [] target[1] = 47 -> <<>>                                             \* origin-form 3.2.1
